@@ -144,7 +144,7 @@ func hxCheckEnvelopeLine(line string, prefix string, want string, okParams []str
 
 func HarnessC05Envelope() {
 	n := svParam("n", 2)
-	which := svPick("field", 2) // 0 From, 1 To
+	which := svPick("field", svParam("fields", 4)) // 0 From, 1 To, 2 To followed by AddTo of another address, 3 EnvelopeFrom
 	lp := svBytes("lp", n)
 	for _, c := range lp {
 		svAssume(c >= 0x20)
@@ -155,10 +155,15 @@ func HarnessC05Envelope() {
 	m.Subject("c05")
 	m.SetBodyString(TypeTextPlain, "body\r\n")
 	var err error
-	if which == 0 {
+	switch which {
+	case 0:
 		err = m.From(addr)
 		_ = m.To("rcpt@example.com")
-	} else {
+	case 3:
+		_ = m.From("header-from@example.com")
+		err = m.EnvelopeFrom(addr)
+		_ = m.To("rcpt@example.com")
+	default:
 		_ = m.From("sender@example.com")
 		err = m.To(addr)
 	}
@@ -167,11 +172,33 @@ func HarnessC05Envelope() {
 		return
 	}
 	svReach("setter-accepted")
+	// the mailbox the caller put on the message, as the setter understood it
 	var want string
-	if which == 0 {
+	switch which {
+	case 0:
 		want = m.GetFrom()[0].Address
-	} else {
+	case 3:
+		want, _ = m.GetSender(false)
+	default:
 		want = m.GetTo()[0].Address
+	}
+	// independent reading for local parts without quoted-pairs: the text between
+	// the quotes is the local part, blanks included
+	plain := true
+	for _, c := range lp {
+		if c == '\\' || c == '"' {
+			plain = false
+		}
+	}
+	if plain {
+		svAssert(want == string(lp)+"@example.com", "C05 setter stored a different mailbox than the quoted local part denotes")
+	}
+	if which == 2 {
+		// a later Add* call must not change the addresses already on the message
+		if aerr := m.AddTo("second@example.com"); aerr != nil {
+			svReach("add-rejected")
+			return
+		}
 	}
 	s := hxNewSrv([]string{"8BITMIME", "SMTPUTF8"})
 	s.onlyOK = true
@@ -182,20 +209,25 @@ func HarnessC05Envelope() {
 	}
 	serr := c.Send(m)
 	sawMail := false
+	nrcpt := 0
 	for _, cm := range s.cmds {
 		switch cm.verb {
 		case "MAIL":
 			sawMail = true
 			w := "sender@example.com"
-			if which == 0 {
+			if which == 0 || which == 3 {
 				w = want
 			}
 			hxCheckEnvelopeLine(cm.line, "MAIL FROM:", w, []string{"BODY=8BITMIME", "SMTPUTF8"})
 		case "RCPT":
 			w := "rcpt@example.com"
-			if which == 1 {
+			if which == 1 || which == 2 {
 				w = want
+				if nrcpt > 0 {
+					w = "second@example.com"
+				}
 			}
+			nrcpt++
 			hxCheckEnvelopeLine(cm.line, "RCPT TO:", w, nil)
 		case "EHLO", "NOOP", "DATA", "EOD", "RSET", "QUIT":
 		default:
